@@ -638,17 +638,14 @@ Proof. intros H1 H2 x. rewrite !in_app_iff, (H1 x), (H2 x). tauto. Qed.
 Definition Concat_ok (a b ab : obs) : Prop :=
   body_part (fst ab) = body_part (fst a) ++ body_part (fst b) /\
   (forall kd, kind_part kd (fst ab) = vals (merge (sel kd (fst a)) (sel kd (fst b)))) /\
-  (if replaced_obs a b ab
-   then seteq (snd ab) (flat_map gq (fst ab))
-   else forall q, In q (snd ab) <-> In q (snd a) \/ In q (snd b)).
+  (forall q, In q (snd ab) <-> In q (snd a) \/ In q (snd b)).
 
 Lemma chk_concat_sound a b ab : chk_concat a b ab = true -> Concat_ok a b ab.
 Proof.
-  unfold chk_concat, Concat_ok. rewrite !andb_true_iff, instrs_eqb_eq, forallb_forall.
+  unfold chk_concat, Concat_ok. rewrite !andb_true_iff, instrs_eqb_eq, forallb_forall, seteqb_seteq.
   intros [[H1 H2] H3]. split; [exact H1|]. split.
   - intros kd. apply instrs_eqb_eq. apply H2. apply in_all_kinds.
-  - destruct (replaced_obs a b ab); apply seteqb_seteq in H3; [exact H3|].
-    intros q. rewrite (H3 q). apply in_app_iff.
+  - intros q. rewrite (H3 q). apply in_app_iff.
 Qed.
 
 (** the model satisfies what the checker checks (so verdict 1 and 2 are consistent) *)
@@ -723,18 +720,23 @@ Proof.
   unfold add_assign_raw. cbn [cals mcals mk]. reflexivity.
 Qed.
 
-Theorem model_concat_ok a b : WF a -> WF b -> Concat_ok (obs_of a) (obs_of b) (obs_of (add a b)).
+Lemma replaced_obs_model a b :
+  WF a -> WF b -> replaced_obs (obs_of a) (obs_of b) (obs_of (add a b)) = replaced a b.
 Proof.
-  intros Ha Hb. assert (Hab := WF_add a b Ha Hb). unfold Concat_ok, obs_of. cbn [fst snd]. split; [|split].
+  intros Ha Hb. assert (Hab := WF_add a b Ha Hb).
+  unfold replaced_obs, replaced, obs_of. cbn [fst]. rewrite !cal_len_to_instructions by assumption.
+  now rewrite cal_count_add.
+Qed.
+
+(** the model passes the strict checker whenever no calibration is replaced; otherwise it is in
+    [union_class] or still satisfies the union *)
+Theorem model_concat_ok a b :
+  WF a -> WF b -> replaced a b = false -> Concat_ok (obs_of a) (obs_of b) (obs_of (add a b)).
+Proof.
+  intros Ha Hb Hr. assert (Hab := WF_add a b Ha Hb). unfold Concat_ok, obs_of. cbn [fst snd]. split; [|split].
   - rewrite !body_part_to_instructions by assumption. apply body_add.
   - intros kd. unfold kind_part. rewrite !sel_to_instructions by assumption. now rewrite defs_add.
-  - assert (Hr : replaced_obs (to_instructions a, used a) (to_instructions b, used b)
-                              (to_instructions (add a b), used (add a b)) = replaced a b).
-    { unfold replaced_obs, replaced. cbn [fst]. rewrite !cal_len_to_instructions by assumption.
-      now rewrite cal_count_add. }
-    rewrite Hr. destruct (replaced a b) eqn:E.
-    + rewrite used_add, E. apply seteq_refl.
-    + intros q. now apply used_add_union.
+  - intros q. now apply used_add_union.
 Qed.
 
 (** * C08: what [build] (a fold of insert from the empty map) computes *)
@@ -1879,3 +1881,15 @@ Proof.
   intros Hw Hi. unfold reset_match, content_reset_match, kind_part.
   rewrite (sel_to_instructions KFrame p Hw). cbn [defs]. now apply frames_matching_congr.
 Qed.
+
+(** with the caches in step, the result never contains a qubit outside the union: the only
+    possible deviation is a missing qubit, i.e. [union_class] *)
+Theorem used_add_incl a b : WF a -> WF b -> InvG a -> InvG b -> incl (used (add a b)) (used a ++ used b).
+Proof.
+  intros Ha Hb Hia Hib q Hq. rewrite used_add in Hq. destruct (replaced a b).
+  - apply in_listing_gq in Hq. destruct Hq as [j [Hj Hx]].
+    apply in_listing_add_assign in Hj; try assumption. apply in_or_app.
+    destruct Hj as [Hj|Hj]; [left; apply Hia | right; apply Hib]; apply in_listing_gq; now exists j.
+  - exact Hq.
+Qed.
+
